@@ -382,7 +382,10 @@ class DefaultPredictionStrategy(object):
         if settings.skip_posterior_variances.on():
             return ZeroLinearOperator(*test_test_covar.size())
 
-        if settings.fast_pred_var.off():
+        # Missing observations must not reduce the predictive covariance: they are handled below on the exact path
+        # (the cached root used by fast_pred_var is computed from all training points).
+        nan_policy = settings.observation_nan_policy.value()
+        if settings.fast_pred_var.off() or nan_policy != "ignore":
             dist = self.train_prior_dist.__class__(
                 torch.zeros_like(self.train_prior_dist.mean), self.train_prior_dist.lazy_covariance_matrix
             )
@@ -392,6 +395,20 @@ class DefaultPredictionStrategy(object):
                 train_train_covar = self.likelihood(dist, self.train_inputs).lazy_covariance_matrix
 
             test_train_covar = to_dense(test_train_covar)
+            if nan_policy == "mask":
+                # Drop the rows and columns of the missing observations (same convention as in _mean_cache)
+                observed = settings.observation_nan_policy._get_observed(
+                    self.train_labels, torch.Size((self.train_labels.shape[-1],))
+                ).reshape(-1)
+                train_train_covar = MaskedLinearOperator(train_train_covar.evaluate_kernel(), observed, observed)
+                test_train_covar = test_train_covar[..., observed]
+            elif nan_policy == "fill":
+                # Decouple the missing observations from everything else (same convention as in _mean_cache)
+                kernel_mask = (~torch.isnan(self.train_labels)).to(test_train_covar.dtype)
+                test_train_covar = test_train_covar * kernel_mask[..., None, :]
+                kernel_mask = kernel_mask[..., None] * kernel_mask[..., None, :]
+                torch.diagonal(kernel_mask, dim1=-2, dim2=-1)[...] = 1
+                train_train_covar = train_train_covar.evaluate_kernel() * kernel_mask
             train_test_covar = test_train_covar.transpose(-1, -2)
             covar_correction_rhs = train_train_covar.solve(train_test_covar)
             # For efficiency
